@@ -240,6 +240,9 @@ func (ch *channel) ReceiveAsync(ctx async.Context) ([]byte, bool, status.Status)
 	// Read next message
 	data, ok, st := s.recvQueue.Read()
 	if !ok || !st.OK() {
+		if st.OK() {
+			s.resendWindow(ctx) // an update which a previous receive could not send
+		}
 		return nil, ok, st
 	}
 
@@ -256,6 +259,13 @@ func (ch *channel) ReceiveAsync(ctx async.Context) ([]byte, bool, status.Status)
 	s.recvBytes.Add(-recv)
 	if !s.closed.Load() {
 		st := s.sender.sendWindow(ctx, recv)
+		if !st.OK() && st.Code != status.CodeClosed && st.Code != status.CodeEnd {
+			// The update was not sent, the context was cancelled or timed out while waiting
+			// for the write queue. Keep the bytes for the next receive, otherwise the sender
+			// never gets this window back, and return the message, it has been read already.
+			s.recvBytes.Add(recv)
+			return data, true, status.OK
+		}
 		switch st.Code {
 		case status.CodeOK,
 			status.CodeCancelled,
